@@ -510,3 +510,13 @@ def expect_sessions(rep, rundir, prop, items, kind="session-expectation"):
                           % (prop, what, " ;; ".join(inputs), got, (last.get("out") or "").strip()[:60], "the stated relation" if callable(want) else want),
                           dict(text=" ;; ".join(inputs), inputs=list(inputs), impl=got, expected=None if callable(want) else want))
     return n
+
+
+def run_lock():
+    """coq/Gen is regenerated from the tree under test and shared by every run: runs against /repo share this lock,
+    a run against another tree (KA_REPO=...) holds it exclusively.  Returns the open file (close it to release)."""
+    import fcntl
+    os.makedirs(BUILD, exist_ok=True)
+    f = open(os.path.join(BUILD, ".runlock"), "w")
+    fcntl.flock(f, fcntl.LOCK_SH if os.path.realpath(REPO) == "/repo" else fcntl.LOCK_EX)
+    return f
